@@ -17,11 +17,13 @@ RULE = ("labelled data (2-4 classes 0..k-1, d=2 (3 in thorough), 40-200 samples,
         "sequence); non-trivial = >=3 calls incl. >=1 with removed samples")
 RULE += (" " + 'In a third of the cases the learning range is given explicitly (data_range wider than the data); evaluated sets include samples exactly ON the learned range (learning samples attaining a minimum/maximum, corners).')
 RULE += (" Between the calls the user modifies the copies handed out by get_testing_data / get_learning_data / get_omitted_data (revert_scaling, scale_factor, scale_range, shift_value, shuffle, remove_samples).")
+RULE += (" Half of the evaluated data sets are built directly on the caller's arrays, which must come back unmodified.")
 REQUIRED = ["argmax_class", "removed_samples_exact", "entirely_outside_raises", "summary_consistent", "earlier_results_stable",
             "testset_prefix_stable", "unlabelled_not_classified", "evaluate_consistent"]
 MIN_NONTRIVIAL = {"quick": 30, "thorough": 500}
 CHUNK = {"quick": 4, "thorough": 30}
-ASSUMPTIONS = ["labels are 0..k-1 (the class returned by the library is the index of the per-class estimator)",
+ASSUMPTIONS = ["arrays handed to DataSet remain the caller's data: an in-place change of them by __call__/test_data is reported, because every later use of the same array would be classified at positions the caller never supplied",
+               "labels are 0..k-1 (the class returned by the library is the index of the per-class estimator)",
                "the per-class density estimators themselves are the source of truth for the densities (consistency property)",
                "samples whose scaled coordinate lies within 1e-9 of the cut-offs 0.0049 / 0.9951 are not judged"]
 
@@ -174,7 +176,11 @@ def run_case(case, res):
                 yn[npr.rand(m) < 0.3] = -1
         S, keep, near = expected_for(Xn)
         calls.append({"kind": kind, "m": len(Xn), "kept": int(keep.sum())})
-        ds = DataSet((Xn.copy(), yn.copy()), name="new%d" % ci)
+        # half of the time the data set is built directly on the caller's arrays (no defensive copy): they must come back untouched
+        own = rng.random() < 0.5
+        Xarg, yarg = (Xn.copy(), yn.copy()) if own else (Xn, yn)
+        Xkeep, ykeep = Xn.copy(), yn.copy()
+        ds = DataSet((Xarg, yarg), name="new%d" % ci)
         if near.any():
             res.note("sample_on_cutoff_not_judged")
             continue
@@ -190,6 +196,12 @@ def run_case(case, res):
             res.check("entirely_outside_raises", nothing_to_do, "C19_value_error_although_samples_inside",
                       "%s raised ValueError(%s) although %d samples are inside the learned range" % (where, str(ex)[:60], int(keep.sum())), cfg)
             continue
+        if not own:
+            res.check("caller_arrays_untouched", np.array_equal(Xn, Xkeep) and np.array_equal(yn, ykeep), "C19_caller_array_modified",
+                      "%s: the sample / label arrays passed in by the caller were modified in place (max change %.3g)" % (
+                          where, float(np.max(np.abs(Xn - Xkeep))) if Xn.shape == Xkeep.shape else float("nan")), cfg)
+            Xn[...] = Xkeep     # keep the harness' expectations for later re-evaluations meaningful
+            yn[...] = ykeep
         if not keep.any():
             res.check("entirely_outside_raises", False, "C19_entirely_outside_not_rejected", "%s: data entirely outside the learned range was accepted" % where, cfg)
             continue
